@@ -1543,8 +1543,10 @@ def check_fac_embv(case):
             fails.append(("factory-data:embv:mating-arguments", "%s mating protocol calls %r" % (tag, calls[:6])))
         got = numpy.asarray(prob.embv)
         if got.shape != (nx, t) or not _close(got, EM):
-            fails.append(("embv-replicate-loop-overwrites-cross-index", "%s (nrep=%d) embv=%r; mean over replicates of the best progeny value per cross is %r"
-                          % (tag, nrep, got.tolist(), EM)))
+            # signature of the known defect: every cross's average lands in row nrep-1, so that row holds the LAST cross's value
+            sig = got.shape == (nx, t) and (nx > 1 or nrep > 1) and nrep - 1 < nx and _close(got[nrep - 1], EM[nx - 1])
+            fails.append(("embv-replicate-loop-overwrites-cross-index" if sig else "factory-data:embv:embv",
+                          "%s (nrep=%d) embv=%r; mean over replicates of the best progeny value per cross is %r" % (tag, nrep, got.tolist(), EM)))
     if not fails:
         for counts in _sel_cases(nx, rs, 2):
             tot = float(sum(counts))
@@ -1830,7 +1832,7 @@ def _rand_weights(rng, n):
 
 
 def gen_enc(rng, tier, fams=FOUR):
-    reps = 300 if tier == "quick" else 6000
+    reps = 200 if tier == "quick" else 2500
     for fam in fams:
         # fixed edge cases: one candidate, everybody, contributions below the 1e-10 guard
         yield dict(kind="enc", fam=fam, seed=rng.randrange(10 ** 6), n=1, t=1, weights=[1], scale=0.5)
@@ -1850,7 +1852,7 @@ def gen_enc(rng, tier, fams=FOUR):
 
 
 def gen_sub(rng, tier):
-    reps = 1200 if tier == "quick" else 20000
+    reps = 800 if tier == "quick" else 10000
     for fam in SUBSET_ONLY:
         yield dict(kind="sub", fam=fam, seed=rng.randrange(10 ** 6), n=1, t=1, sel=[0])
         for _ in range(reps):
@@ -1869,7 +1871,7 @@ def gen_sub(rng, tier):
 
 
 def gen_ev(rng, tier):
-    reps = 60 if tier == "quick" else 1200
+    reps = 40 if tier == "quick" else 500
     for fam, enc in all_classes():
         for _ in range(reps):
             n = rng.choice([1, 2, 3, 5])
@@ -1885,12 +1887,12 @@ def gen_ev(rng, tier):
                     w = [int(math.ceil(v)) for v in w]
                 case["weights"] = w
             yield case
-    for _ in range(200 if tier == "quick" else 5000):
+    for _ in range(200 if tier == "quick" else 3000):
         yield dict(kind="trans", seed=rng.randrange(10 ** 6), l=rng.choice([1, 2, 3, 9, 40]), nd=rng.choice([1, 2, 5, 17]))
 
 
 def gen_fac_bv(rng, tier):
-    reps = 20 if tier == "quick" else 300
+    reps = 15 if tier == "quick" else 150
     for _ in range(reps):
         for fam in ("ebv", "gebv", "family"):
             for scaled in (True, False):
@@ -1914,7 +1916,7 @@ def gen_fac_bv(rng, tier):
 
 
 def gen_fac_kin(rng, tier):
-    reps = 15 if tier == "quick" else 250
+    reps = 15 if tier == "quick" else 150
     for _ in range(reps):
         for fam in ("ocs", "mgr", "meh"):
             for cmat in ("stub", "molecular"):
@@ -1927,7 +1929,7 @@ def gen_fac_kin(rng, tier):
 
 
 def gen_fac_af(rng, tier):
-    reps = 40 if tier == "quick" else 800
+    reps = 40 if tier == "quick" else 400
     for _ in range(reps):
         yield dict(kind="fac-l1", seed=rng.randrange(10 ** 6), n=rng.choice([1, 2, 5]), t=rng.choice([1, 2, 3]), p=rng.choice([1, 2, 6]), mode=rng.choice(["random", "fixed"]))
         for fam in ("pafd", "pau", "mogs"):
@@ -1939,7 +1941,7 @@ def gen_fac_af(rng, tier):
 
 
 def gen_fac_x(rng, tier):
-    reps = 15 if tier == "quick" else 200
+    reps = 15 if tier == "quick" else 150
     for _ in range(reps):
         for vmat in ("stub", "real"):
             for xmap in ("given", None):
@@ -1951,8 +1953,9 @@ def gen_fac_x(rng, tier):
             for unique in (True, False):
                 yield dict(kind="fac-ohv", fam="ohv", seed=rng.randrange(10 ** 6), n=rng.choice([3, 4, 5]), t=rng.choice([1, 2]), p=rng.choice([6, 8, 10]),
                            nparent=npar, unique=unique, nhaploblk=rng.choice([1, 2, 3, 4]), nchr=rng.choice([1, 2]), mode=rng.choice(["random", "inbred"]))
-        yield dict(kind="fac-ohv", fam="opv", seed=rng.randrange(10 ** 6), n=rng.choice([1, 3, 5]), t=rng.choice([1, 2]), p=rng.choice([6, 8]),
-                   nhaploblk=rng.choice([1, 2, 3]), nchr=rng.choice([1, 2]))
+        for _k in range(4):
+            yield dict(kind="fac-ohv", fam="opv", seed=rng.randrange(10 ** 6), n=rng.choice([1, 3, 5]), t=rng.choice([1, 2]), p=rng.choice([6, 8]),
+                       nhaploblk=rng.choice([1, 2, 3]), nchr=rng.choice([1, 2]))
         for nrep in (1, 2, 3):
             n_ = rng.choice([2, 3, 4])
             yield dict(kind="fac-embv", seed=rng.randrange(10 ** 6), n=n_, t=rng.choice([1, 2]), nparent=rng.choice([1, 2, 3][:n_]),
@@ -1985,7 +1988,7 @@ U_FX = "ring[factories hold population data in taxon order: UC OHV OPV EMBV cros
 
 
 @unit(P, U_ENC_A, "R", bounded=True,
-      note="bounded: n<=8 candidates/crosses, t<=3 traits, counts<=18, seeded random data incl. ties/zeros/1e8 magnitudes; 306 (quick) / 6006 (thorough) cases per criterion")
+      note="bounded: n<=8 candidates/crosses, t<=3 traits, counts<=18, seeded random data incl. ties/zeros/1e8 magnitudes; 206 (quick) / 2506 (thorough) cases per criterion")
 def u_ring_enc_a(ctx):
     ctx.rule = ("per criterion: seeded data, a contribution vector (subset, repeated members, integer counts, real shares, one, all, below/above the 1e-10 guard); "
                 "every encoding of it is evaluated on the real class and compared with the definition computed by loops; distinct by data seed + contributions")
@@ -1993,7 +1996,7 @@ def u_ring_enc_a(ctx):
 
 
 @unit(P, U_ENC_B, "R", bounded=True,
-      note="bounded: n<=8 candidates, t<=3 traits, <=5 loci, random SPD kinships; 306 (quick) / 6006 (thorough) cases per criterion")
+      note="bounded: n<=8 candidates, t<=3 traits, <=5 loci, random SPD kinships; 206 (quick) / 2506 (thorough) cases per criterion")
 def u_ring_enc_b(ctx):
     ctx.rule = ("as the first unit for the kinship-norm, allele-frequency-distance and family criteria; kinship = random SPD matrix, "
                 "problem gets its Cholesky factor, the oracle the matrix itself")
@@ -2001,40 +2004,40 @@ def u_ring_enc_b(ctx):
 
 
 @unit(P, U_SUB, "R", bounded=True,
-      note="bounded: n<=7 taxa, <=6 loci, <=3 blocks, t<=3; 1201 (quick) / 20001 (thorough) cases per criterion + 8 selection sizes 7..103 for rounding")
+      note="bounded: n<=7 taxa, <=6 loci, <=3 blocks, t<=3; 801 (quick) / 10001 (thorough) cases per criterion + 8 selection sizes 7..103 for rounding")
 def u_ring_sub(ctx):
     ctx.rule = "seeded genotype/haplotype data, every selection listed in 3 orders; allele availability decided on integer counts; distinct by seed + selection"
     _drive(ctx, gen_sub(ctx.rng, ctx.tier))
 
 
 @unit(P, U_EV, "R", bounded=True,
-      note="bounded: 60 (quick) / 1200 (thorough) random weight/transformation declarations per class x 60 classes; weights None/scalar/array incl. 0, negative, int")
+      note="bounded: 40 (quick) / 500 (thorough) random weight/transformation declarations per class x 60 classes; weights None/scalar/array incl. 0, negative, int")
 def u_ring_ev(ctx):
     ctx.rule = ("for each of the 60 classes: random declared obj/ineqcv/eqcv weights and transformations (identity, sum, dot, empty, decision-sum, a recording "
                 "function with kwargs); evalfn and _evaluate (1-D, 2-D) compared EXACTLY with weight_i * T_i(x, latent, **kwargs)")
     _drive(ctx, gen_ev(ctx.rng, ctx.tier))
 
 
-@unit(P, U_FBV, "R", bounded=True, note="bounded: n<=7 taxa, <=11 loci, t<=3; 20 (quick) / 300 (thorough) rounds over all factory x option combinations (47 cases per round)")
+@unit(P, U_FBV, "R", bounded=True, note="bounded: n<=7 taxa, <=11 loci, t<=3; 15 (quick) / 150 (thorough) rounds over all factory x option combinations (47 cases per round)")
 def u_ring_fbv(ctx):
     ctx.rule = ("seeded populations with unsorted taxon names/groups, scaled and unscaled breeding value matrices, phased and unphased genotypes, fixed loci and zero effects; "
                 "stored matrices compared per taxon with values computed by loops, then latent values in all encodings")
     _drive(ctx, gen_fac_bv(ctx.rng, ctx.tier))
 
 
-@unit(P, U_FKIN, "R", bounded=True, note="bounded: n<=6 taxa, <=12 loci, t<=3; 15 (quick) / 250 (thorough) rounds of 18 cases; molecular kinship and a stub factory with a known matrix")
+@unit(P, U_FKIN, "R", bounded=True, note="bounded: n<=6 taxa, <=12 loci, t<=3; 15 (quick) / 150 (thorough) rounds of 18 cases; molecular kinship and a stub factory with a known matrix")
 def u_ring_fkin(ctx):
     ctx.rule = "C upper triangular with C'C = independently computed kinship (taxon order), sqrt(c'Kc) in all encodings; MEH also against pool heterozygosity"
     _drive(ctx, gen_fac_kin(ctx.rng, ctx.tier))
 
 
-@unit(P, U_FAF, "R", bounded=True, note="bounded: n<=5 taxa, <=7 loci, t<=3; 40 (quick) / 800 (thorough) rounds of 13 cases")
+@unit(P, U_FAF, "R", bounded=True, note="bounded: n<=5 taxa, <=7 loci, t<=3; 40 (quick) / 400 (thorough) rounds of 13 cases")
 def u_ring_faf(ctx):
     ctx.rule = "stored genotype counts / weights / targets equal the population's and the declared functions of the marker effects; latent = definition"
     _drive(ctx, gen_fac_af(ctx.rng, ctx.tier))
 
 
-@unit(P, U_FX, "R", bounded=True, note="bounded: n<=5 taxa (one case 45 taxa = 1035 crosses), <=10 loci, <=4 blocks, nparent<=3; 15 (quick) / 200 (thorough) rounds of 21 cases")
+@unit(P, U_FX, "R", bounded=True, note="bounded: n<=5 taxa (one case 45 taxa = 1035 crosses), <=10 loci, <=4 blocks, nparent<=3; 15 (quick) / 150 (thorough) rounds of 24 cases")
 def u_ring_fx(ctx):
     ctx.rule = ("cross map = lexicographic parent combinations; UC through a stub variance factory with a known asymmetric variance array and through the real "
                 "two-way DH factory; OHV/OPV from block values computed by loops; EMBV with a deterministic stand-in mating protocol")
